@@ -154,13 +154,14 @@ def build_leaf(name, sources, extra_flags=""):
     """Compile a small C++ driver from harness/cpp/<name>.cpp against /repo's current sources.
     `sources` are repo-relative .cpp files linked in. Cached on the tree hash."""
     th = tree_hash()
+    drv = os.path.join(VERIF, "harness", "cpp", name + ".cpp")
+    dh = hashlib.sha256(open(drv, "rb").read() + extra_flags.encode()).hexdigest()[:8]   # the driver's own text is part of the key
     dest = os.path.join(CACHE, "leaf", th)
-    out = os.path.join(dest, name)
+    out = os.path.join(dest, name + "-" + dh)
     with Lock("leaf-" + name):
         if os.path.exists(out):
             return out
         os.makedirs(dest, exist_ok=True)
-        drv = os.path.join(VERIF, "harness", "cpp", name + ".cpp")
         cmd = "g++ -std=c++17 -O1 -w -D%s -I%s -I%s/src -I%s/src/backend/interpreter %s %s %s -o %s.tmp -ldl" % (
             GUARD, REPO, REPO, REPO, extra_flags, drv,
             " ".join(os.path.join(REPO, s) for s in sources), out)
